@@ -6,6 +6,7 @@ import (
 	"sort"
 
 	"manticheck/internal/load"
+	"manticheck/internal/prove"
 	"manticheck/internal/report"
 )
 
@@ -46,4 +47,17 @@ func (c *Ctx) guard(rule, construct, pos string, f func()) {
 		}
 	}()
 	f()
+}
+
+// sharedWorld memoises the E1 world per loaded program: several extensions of
+// one check need it and building it costs seconds.
+var sharedWorlds = map[*load.Program]*prove.World{}
+
+func sharedWorld(p *load.Program) *prove.World {
+	if w, ok := sharedWorlds[p]; ok {
+		return w
+	}
+	w := prove.NewWorld(p)
+	sharedWorlds[p] = w
+	return w
 }
